@@ -105,6 +105,17 @@ impl<'a> VisitorContext<'a> {
     ) -> ServerResult<T> {
         let value = field.get_argument(name).cloned();
 
+        // A variable that is declared but neither provided nor given a default
+        // leaves the argument unset, exactly as at execution time.
+        let value = value.filter(|value| match (&value.node, self.variables) {
+            (Value::Variable(var_name), Some(variables)) => !variable_definitions.iter().any(|def| {
+                def.node.name.node == *var_name
+                    && def.node.default_value.is_none()
+                    && !variables.contains_key(var_name)
+            }),
+            _ => true,
+        });
+
         if value.is_none()
             && let Some(default) = default
         {
